@@ -56,3 +56,50 @@ Definition py_ceil_fdiv (a b : Z) : option Z :=
   if b =? 0 then None else Some (- ((- a) / b)).
 
 Definition zrange (n : Z) : list Z := map Z.of_nat (seq 0 (Z.to_nat n)).
+
+(* x in l  =  any(e is x or e == x for e in l); [eq e x] is Python's e == x (identity implies it for the element types used) *)
+Definition py_mem {A} (eq : A -> A -> bool) (x : A) (l : list A) : bool := existsb (fun e => eq e x) l.
+
+(* [f v for v in range(n) if c v]; None = some evaluated f v raised *)
+Fixpoint comp_list {B} (c : Z -> bool) (f : Z -> option B) (vs : list Z) : option (list B) :=
+  match vs with
+  | [] => Some []
+  | v :: r => if c v then (y <- f v ;; ys <- comp_list c f r ;; Some (y :: ys)) else comp_list c f r
+  end.
+Definition py_comp_range {B} (n : Z) (c : Z -> bool) (f : Z -> option B) : option (list B) :=
+  comp_list c f (zrange n).
+
+(* ---- insertion-ordered dicts (dict / OrderedDict) as association lists with Python's update semantics ---- *)
+(* d[k] ; None = KeyError.  [eq k k'] is the key comparison *)
+Fixpoint py_dget {K B} (eq : K -> K -> bool) (k : K) (d : list (K * B)) : option B :=
+  match d with
+  | [] => None
+  | (k', v) :: r => if eq k k' then Some v else py_dget eq k r
+  end.
+(* k in d *)
+Definition py_dmem {K B} (eq : K -> K -> bool) (k : K) (d : list (K * B)) : bool :=
+  match py_dget eq k d with Some _ => true | None => false end.
+(* d[k] = v : a key that is set again keeps its position *)
+Fixpoint py_dset {K B} (eq : K -> K -> bool) (k : K) (v : B) (d : list (K * B)) : list (K * B) :=
+  match d with
+  | [] => [(k, v)]
+  | (k', v') :: r => if eq k k' then (k', v) :: r else (k', v') :: py_dset eq k v r
+  end.
+(* {k: v for (k, v) in l} *)
+Definition py_dict_of {K B} (eq : K -> K -> bool) (l : list (K * B)) : list (K * B) :=
+  fold_left (fun d kv => py_dset eq (fst kv) (snd kv) d) l [].
+(* enumerate(l) *)
+Definition py_enumerate {B} (l : list B) : list (Z * B) := combine (zrange (py_len l)) l.
+(* [f x for x in l] where f may raise *)
+Fixpoint py_traverse {X Y} (f : X -> option Y) (l : list X) : option (list Y) :=
+  match l with
+  | [] => Some []
+  | x :: r => y <- f x ;; ys <- py_traverse f r ;; Some (y :: ys)
+  end.
+(* for v in range(n): s = body v s *)
+Fixpoint for_list {S} (body : Z -> S -> option S) (vs : list Z) (s : S) : option S :=
+  match vs with
+  | [] => Some s
+  | v :: r => s' <- body v s ;; for_list body r s'
+  end.
+Definition py_for_range {S} (n : Z) (body : Z -> S -> option S) (s : S) : option S := for_list body (zrange n) s.
